@@ -76,7 +76,7 @@ fn nb_one<F: Fl, L: linfa::Label + serde::Serialize + serde::de::DeserializeOwne
     if let Ok(model) = GaussianNb::<F, L>::params().fit(&ds) {
         rt(em, sw, "linfa-bayes::GaussianNb", tag, Norm::SortMaps, &model, &|a: &GaussianNb<F, L>, b, ctx, class| {
             let class = format!("{}:labels={}:probe={}", class, lname, probe);
-            ctx.require(a == b || a != a, "equal", &class, || "models differ".into());
+            ctx.require(a == b || (a != a && super::value_has_nan()), "equal", &class, || "models differ".into());
             // the score table is rebuilt on every call: ask several times
             for _ in 0..6 {
                 same_call(ctx, "predict", &class, "predict", || a.predict(&fresh).to_vec(), || b.predict(&fresh).to_vec());
@@ -87,7 +87,7 @@ fn nb_one<F: Fl, L: linfa::Label + serde::Serialize + serde::de::DeserializeOwne
     if let Ok(model) = MultinomialNb::<F, L>::params().fit(&ds) {
         rt(em, sw, "linfa-bayes::MultinomialNb", tag, Norm::SortMaps, &model, &|a: &MultinomialNb<F, L>, b, ctx, class| {
             let class = format!("{}:labels={}:probe={}", class, lname, probe);
-            ctx.require(a == b || a != a, "equal", &class, || "models differ".into());
+            ctx.require(a == b || (a != a && super::value_has_nan()), "equal", &class, || "models differ".into());
             for _ in 0..6 {
                 same_call(ctx, "predict", &class, "predict", || a.predict(&fresh).to_vec(), || b.predict(&fresh).to_vec());
             }
@@ -99,7 +99,7 @@ fn nb_one<F: Fl, L: linfa::Label + serde::Serialize + serde::de::DeserializeOwne
     let ds2 = ds.clone();
     rt(em, sw, "linfa-bayes::GaussianNbValidParams", tag, Norm::Exact, &vp, &|a, b, ctx, class| {
         let class = format!("{}:labels={}", class, lname);
-        ctx.require(a == b || a != a, "equal", &class, || format!("{:?} vs {:?}", a, b));
+        ctx.require(a == b || (a != a && super::value_has_nan()), "equal", &class, || format!("{:?} vs {:?}", a, b));
         dbg_same(ctx, &class, a, b);
         refit_same(ctx, &class, &|| fp(a.fit(&ds2)), &|| fp(b.fit(&ds2)));
     });
@@ -138,14 +138,14 @@ where
     let ds2 = ds.clone();
     rt(em, sw, "linfa-clustering::KMeansParams", tag, Norm::Exact, &params, &|a, b, ctx, class| {
         let class = format!("{}:dist={}", class, dname);
-        ctx.require(a == b || a != a, "equal", &class, || format!("{:?} vs {:?}", a, b));
+        ctx.require(a == b || (a != a && super::value_has_nan()), "equal", &class, || format!("{:?} vs {:?}", a, b));
         dbg_same(ctx, &class, a, b);
         refit_same(ctx, &class, &|| fp(a.fit(&ds2)), &|| fp(b.fit(&ds2)));
     });
     if let Ok(model) = params.fit(&ds) {
         rt(em, sw, "linfa-clustering::KMeans", tag, Norm::Exact, &model, &|a: &KMeans<F, D>, b, ctx, class| {
             let class = format!("{}:dist={}", class, dname);
-            ctx.require(a == b || a != a, "equal", &class, || "models differ".into());
+            ctx.require(a == b || (a != a && super::value_has_nan()), "equal", &class, || "models differ".into());
             dbg_same(ctx, &class, a, b);
             same_arr(ctx, "accessors", &class, "centroids", a.centroids(), b.centroids());
             same_arr(ctx, "accessors", &class, "cluster_count", a.cluster_count(), b.cluster_count());
@@ -162,7 +162,7 @@ where
     let x2 = x.clone();
     rt(em, sw, "linfa-clustering::DbscanValidParams", tag, Norm::Exact, &dvp, &|a, b, ctx, class| {
         let class = format!("{}:dist={}", class, dname);
-        ctx.require(a == b || a != a, "equal", &class, || format!("{:?} vs {:?}", a, b));
+        ctx.require(a == b || (a != a && super::value_has_nan()), "equal", &class, || format!("{:?} vs {:?}", a, b));
         dbg_same(ctx, &class, a, b);
         ctx.require(a.dist_fn() == b.dist_fn() && a.nn_algo() == b.nn_algo(), "accessors", &class, || "dist_fn / nn_algo".into());
         refit_same(ctx, &class, &|| fp::<_, String>(Ok(a.transform(&x2))), &|| fp::<_, String>(Ok(b.transform(&x2))));
@@ -171,7 +171,7 @@ where
     let x2 = x.clone();
     rt(em, sw, "linfa-clustering::OpticsValidParams", tag, Norm::Exact, &ovp, &|a, b, ctx, class| {
         let class = format!("{}:dist={}", class, dname);
-        ctx.require(a == b || a != a, "equal", &class, || format!("{:?} vs {:?}", a, b));
+        ctx.require(a == b || (a != a && super::value_has_nan()), "equal", &class, || format!("{:?} vs {:?}", a, b));
         dbg_same(ctx, &class, a, b);
         refit_same(ctx, &class, &|| fp::<_, String>(Ok(a.transform(x2.view()))), &|| fp::<_, String>(Ok(b.transform(x2.view()))));
     });
@@ -209,7 +209,7 @@ fn $fname(em: &mut Em, rng: &mut Rng, sw: &mut Sweep) {
         if let Ok(m) = LogisticRegression::<F>::default().max_iterations(30).fit(&ds) {
             rt(em, sw, "linfa-logistic::FittedLogisticRegression", tag, Norm::Exact, &m, &|a: &FittedLogisticRegression<F, $L>, b, ctx, class| {
                 let class = format!("{}:labels={}", class, $lname);
-                ctx.require(a == b || a != a, "equal", &class, || "models differ".into());
+                ctx.require(a == b || (a != a && super::value_has_nan()), "equal", &class, || "models differ".into());
                 dbg_same(ctx, &class, a, b);
                 ctx.require(a.labels() == b.labels(), "accessors", &class, || "labels".into());
                 same_call(ctx, "predict", &format!("{}:probe=ties", class), "predict", || a.predict(&fresh).to_vec(), || b.predict(&fresh).to_vec());
@@ -231,7 +231,7 @@ fn $fname(em: &mut Em, rng: &mut Rng, sw: &mut Sweep) {
         if let Ok(m) = MultiLogisticRegression::<F>::default().max_iterations(30).fit(&ds) {
             rt(em, sw, "linfa-logistic::MultiFittedLogisticRegression", tag, Norm::Exact, &m, &|a: &MultiFittedLogisticRegression<F, String>, b, ctx, class| {
                 let class = format!("{}:labels=String", class);
-                ctx.require(a == b || a != a, "equal", &class, || "models differ".into());
+                ctx.require(a == b || (a != a && super::value_has_nan()), "equal", &class, || "models differ".into());
                 dbg_same(ctx, &class, a, b);
                 ctx.require(a.classes() == b.classes(), "accessors", &class, || "classes".into());
                 same_call(ctx, "predict", &format!("{}:probe=ties", class), "predict", || a.predict(&fresh).to_vec(), || b.predict(&fresh).to_vec());
@@ -247,15 +247,15 @@ fn $fname(em: &mut Em, rng: &mut Rng, sw: &mut Sweep) {
         let params = DecisionTree::<F, $L>::params().max_depth(Some(3));
         rt(em, sw, "linfa-trees::DecisionTreeParams", tag, Norm::Exact, &params, &|a, b, ctx, class| {
             let class = format!("{}:labels={}", class, $lname);
-            ctx.require(a == b || a != a, "equal", &class, || format!("{:?} vs {:?}", a, b));
+            ctx.require(a == b || (a != a && super::value_has_nan()), "equal", &class, || format!("{:?} vs {:?}", a, b));
             dbg_same(ctx, &class, a, b);
         });
         if let Ok(m) = params.fit(&ds) {
             rt(em, sw, "linfa-trees::DecisionTree", tag, Norm::Exact, &m, &|a: &DecisionTree<F, $L>, b, ctx, class| {
                 let class = format!("{}:labels={}", class, $lname);
-                ctx.require(a == b || a != a, "equal", &class, || "trees differ".into());
+                ctx.require(a == b || (a != a && super::value_has_nan()), "equal", &class, || "trees differ".into());
                 dbg_same(ctx, &class, a, b);
-                ctx.require(sorted(a.features()) == sorted(b.features()) && a.max_depth() == b.max_depth() && a.num_leaves() == b.num_leaves(), "accessors", &class, || "features / depth / leaves".into());
+                ctx.require(a.features() == b.features() && a.max_depth() == b.max_depth() && a.num_leaves() == b.num_leaves(), "accessors", &class, || "features / depth / leaves".into());
                 same_call(ctx, "predict", &format!("{}:probe=ties", class), "predict", || a.predict(&fresh).to_vec(), || b.predict(&fresh).to_vec());
                 same_call(ctx, "predict", &format!("{}:probe=nonfinite", class), "predict on non-finite rows", || a.predict(&bad).to_vec(), || b.predict(&bad).to_vec());
                 same_call(ctx, "accessors", &class, "tikz export", || Tikz::new(a).complete(true).to_string(), || Tikz::new(b).complete(true).to_string());
@@ -268,7 +268,7 @@ fn $fname(em: &mut Em, rng: &mut Rng, sw: &mut Sweep) {
     let yb: Array1<bool> = yl.mapv(|v| v == 1);
     let dsb = Dataset::new(x.clone(), yb);
     let svmb = |a: &Svm<F, bool>, b: &Svm<F, bool>, ctx: &mut Ctx, class: &str| {
-        ctx.require(a == b || a != a, "equal", class, || "models differ".into());
+        ctx.require(a == b || (a != a && super::value_has_nan()), "equal", class, || "models differ".into());
         dbg_same(ctx, class, a, b);
         same_call(ctx, "predict", &format!("{}:probe=ties", class), "predict", || { let r: Array1<bool> = a.predict(&fresh); r.to_vec() }, || { let r: Array1<bool> = b.predict(&fresh); r.to_vec() });
         same_call(ctx, "predict", &format!("{}:probe=nonfinite", class), "decision values on non-finite rows", || bad.rows().into_iter().map(|r| fb(a.weighted_sum(&r))).collect::<Vec<_>>(), || bad.rows().into_iter().map(|r| fb(b.weighted_sum(&r))).collect::<Vec<_>>());
@@ -363,7 +363,7 @@ fn invalid<F: Fl>(em: &mut Em, rng: &mut Rng, sw: &mut Sweep) {
         em.count("invalid:PlsSvdParams");
         rt(em, sw, "linfa-pls::PlsSvdParams", tag, Norm::Exact, &sp, &|a, b, ctx, class| {
             let class = format!("{}:instance=invalid", class);
-            ctx.require(a == b || a != a, "equal", &class, || format!("{:?} vs {:?}", a, b));
+            ctx.require(a == b || (a != a && super::value_has_nan()), "equal", &class, || format!("{:?} vs {:?}", a, b));
             dbg_same(ctx, &class, a, b);
             let f = |q: &PlsSvdParams| verdict(Fit::<Array2<F>, Array2<F>, PlsError>::fit(q, &ds).map(|_| String::new()).map_err(|e| e.to_string()));
             same_call(ctx, "validate", &class, "fit verdict", || f(a), || f(b));
@@ -377,7 +377,7 @@ fn invalid<F: Fl>(em: &mut Em, rng: &mut Rng, sw: &mut Sweep) {
         em.count("invalid:LinearScalerParams");
         rt(em, sw, "linfa-preprocessing::LinearScalerParams", tag, Norm::Exact, &sp, &|a, b, ctx, class| {
             let class = format!("{}:instance=invalid", class);
-            ctx.require(a == b || a != a, "equal", &class, || format!("{:?} vs {:?}", a, b));
+            ctx.require(a == b || (a != a && super::value_has_nan()), "equal", &class, || format!("{:?} vs {:?}", a, b));
             dbg_same(ctx, &class, a, b);
             same_call(ctx, "validate", &class, "fit verdict", || verdict(a.fit(&ds).map(|_| String::new()).map_err(|e| e.to_string())), || verdict(b.fit(&ds).map(|_| String::new()).map_err(|e| e.to_string())));
             ctx.require(a.fit(&ds).is_err(), "validate", &format!("{}:generator", class), || "the instance was meant to be invalid".into());
@@ -410,7 +410,7 @@ fn invalid_untyped(em: &mut Em, rng: &mut Rng, sw: &mut Sweep) {
         em.count("invalid:PcaParams");
         rt(em, sw, "linfa-reduction::PcaParams", "f64", Norm::Exact, &params, &|a, b, ctx, class| {
             let class = format!("{}:instance=invalid", class);
-            ctx.require(a == b || a != a, "equal", &class, || format!("{:?} vs {:?}", a, b));
+            ctx.require(a == b || (a != a && super::value_has_nan()), "equal", &class, || format!("{:?} vs {:?}", a, b));
             dbg_same(ctx, &class, a, b);
             let f = |q: &linfa_reduction::PcaParams| q.fit(&ds).map(|m| fp::<_, String>(Ok(m))).map_err(|e| e.to_string());
             same_call(ctx, "validate", &class, "fit verdict", || f(a), || f(b));
@@ -601,7 +601,7 @@ fn sizes(em: &mut Em, rng: &mut Rng, sw: &mut Sweep) {
     if let Ok(m) = LinearRegression::new().fit(&Dataset::new(x, y)) {
         rt(em, sw, "linfa-linear::FittedLinearRegression", "f64", Norm::Exact, &m, &|a, b, ctx, class| {
             let class = format!("{}:size=array16", class);
-            ctx.require(a == b || a != a, "equal", &class, || "models differ".into());
+            ctx.require(a == b || (a != a && super::value_has_nan()), "equal", &class, || "models differ".into());
             same_arr(ctx, "accessors", &class, "params", a.params(), b.params());
             same_arr(ctx, "predict", &class, "predict", &a.predict(&fresh), &b.predict(&fresh));
         });
@@ -619,7 +619,7 @@ fn sizes(em: &mut Em, rng: &mut Rng, sw: &mut Sweep) {
     if let Ok(m) = IsotonicRegression::new().fit(&Dataset::new(x, y)) {
         rt(em, sw, "linfa-linear::FittedIsotonicRegression", "f32", Norm::Exact, &m, &|a: &FittedIsotonicRegression<f32>, b, ctx, class| {
             let class = format!("{}:size=array32", class);
-            ctx.require(a == b || a != a, "equal", &class, || "models differ".into());
+            ctx.require(a == b || (a != a && super::value_has_nan()), "equal", &class, || "models differ".into());
             same_arr(ctx, "predict", &class, "predict", &a.predict(&fresh), &b.predict(&fresh));
         });
     }
